@@ -114,6 +114,7 @@ var luaForms = map[string]string{
 	"lessthan":     "return A < B",
 	"concat":       "return A .. B",
 	"concat3":      "return A .. B .. K",
+	"concat0":      `return ""`, // lua_concat(L, 0): no operands give the empty string
 	"objlen":       "return #A",
 	"getmetatable": "return getmetatable(A)",
 	"tostringmeta": "return tostring(A)",
@@ -281,6 +282,8 @@ func runObj(w *lib.Writer, in ObjIn, class string) {
 			api = append(api, "ret:s:"+noAddr(L.Concat(A, B)))
 		case "concat3":
 			api = append(api, "ret:s:"+noAddr(L.Concat(A, B, K)))
+		case "concat0":
+			api = append(api, "ret:s:"+L.Concat())
 		case "objlen":
 			api = append(api, fmt.Sprintf("ret:n:%x", math.Float64bits(float64(L.ObjLen(A)))))
 		case "getmetatable":
@@ -325,7 +328,7 @@ func runObj(w *lib.Writer, in ObjIn, class string) {
 		n := L.GetTop() - top0
 		for i := 1; i <= n; i++ {
 			v := L.Get(top0 + i)
-			if in.Op == "concat" || in.Op == "concat3" {
+			if in.Op == "concat" || in.Op == "concat3" || in.Op == "concat0" {
 				// the API returns a Go string: numbers/strings are compared as text
 				lu = append(lu, "ret:s:"+noAddr(lua.LVAsString(v)))
 			} else if in.Op == "equal" || in.Op == "rawequal" || in.Op == "lessthan" {
@@ -361,9 +364,17 @@ func runObj(w *lib.Writer, in ObjIn, class string) {
 			opIdx = i
 		}
 	}
-	id := w.Add(lib.Case{Input: in, Observed: map[string]any{"api": api, "lua": lu}, Class: class,
+	var kf []string
+	coq := fmt.Sprintf("CObj %d %s %s", opIdx, toZ(api), toZ(lu))
+	if in.Op == "objlen" && ((in.A.Src == "newud(MT1)" && in.MT1&64 == 0) || (in.A.Src == "newud(MT2)" && in.MT2&64 == 0)) {
+		// C10-2: ObjLen of a userdata without __len returns 0 where Lua's # raises
+		kf = []string{"C10-2"}
+		class = "obj/objlen-ud-nolen"
+		coq = fmt.Sprintf("CObjDev %d %s %s %s", opIdx, toZ(api), toZ(lu), toZ([]string{fmt.Sprintf("ret:n:%x", math.Float64bits(0))}))
+	}
+	id := w.Add(lib.Case{Input: in, Observed: map[string]any{"api": api, "lua": lu}, Class: class, KF: kf,
 		Nontrivial: hasLog, // a metamethod took part
-		Coq:        fmt.Sprintf("CObj %d %s %s", opIdx, toZ(api), toZ(lu))})
+		Coq:        coq})
 	if !stackOK {
 		w.GoFail(id, "the API call left values on the stack")
 	}
@@ -371,7 +382,7 @@ func runObj(w *lib.Writer, in ObjIn, class string) {
 
 /* ---------- generator ---------- */
 
-var plainVals = []string{"nil", "true", "false", "0", "1", "2", "10", "-3", "2.5", `"abc"`, `"abd"`, `"10"`, `"2"`, `""`, `"x"`, `"absent"`}
+var plainVals = []string{`"h\195\169llo"`, `"\240\159\152\128x"`, "nil", "true", "false", "0", "1", "2", "10", "-3", "2.5", `"abc"`, `"abd"`, `"10"`, `"2"`, `""`, `"x"`, `"absent"`}
 
 func genOperand(r *lib.Rand, op string, which byte) Operand {
 	tbl := func() string {
@@ -403,11 +414,14 @@ func genOperand(r *lib.Rand, op string, which byte) Operand {
 		if which == 'A' {
 			switch r.Pick(3, 5, 2) {
 			case 0:
-				return Operand{[]string{`""`, `"abc"`, `"a\0b"`, `"10"`}[r.Intn(4)]}
+				return Operand{[]string{`""`, `"abc"`, `"a\0b"`, `"10"`, `"h\195\169llo"`, `"\240\159\152\128"`, `"\200\201"`, `"\226\130\172 5"`}[r.Intn(8)]}
 			case 1:
 				return Operand{tbl()}
 			default:
-				return Operand{"newud(MT1)"} // MT1 carries __len for this op (see genObj)
+				if r.Chance(60) {
+					return Operand{"newud(MT1)"} // MT1 carries __len for this op (see genObj)
+				}
+				return Operand{"newud(MT2)"} // MT2 may lack __len: known finding C10-2
 			}
 		}
 	}
